@@ -193,7 +193,7 @@ ParDecide(S0, n) ==    \* 0: go on, 1: a child result ends the parallel (stop th
 OnResume(S0, n) ==
   CASE IsLeaf(n) ->
          \* the timer is armed afresh: if it was overdue it is merely due again
-         LET S1 == [Emit(S0, "resume", n) EXCEPT !.lrem[n] = IF @ < 0 THEN 0 ELSE @] IN
+         LET S1 == [Emit(S0, "resume", n) EXCEPT !.lrem[n] = IF K(n) = "Sleep" THEN prog[n].d ELSE IF @ < 0 THEN 0 ELSE @] IN
          IF S1.lph[n] = 1
          THEN LET S2 == [S1 EXCEPT !.lph[n] = 2, !.lrem[n] = prog[n].d] IN
               IF prog[n].d = 0 /\ K(n) # "Sleep" THEN LeafFire(S2, n) ELSE S2
@@ -322,7 +322,10 @@ DeliverItem(S0, it) ==
 \* fires expired timers at the start of an iteration, the clock moves in the middle of one, so a due timer may see
 \* one more tick but not two.
 CanFire(S0, n) == IsLeaf(n) /\ S0.st[n] = "Running" /\ prog[n].o # "never" /\ S0.lph[n] # 1
-FireEnabled(S0, n) == CanFire(S0, n) /\ S0.lrem[n] <= 0
+\* A SleepAction leaf may complete at any moment while it runs: how much sleeping time is left after pause/resume cycles is
+\* not part of the property (the code even counts a paused period twice after a second pause).  Its counter is only an
+\* upper bound (full span again after every resume), so that a sleep that never completes is still noticed.
+FireEnabled(S0, n) == CanFire(S0, n) /\ (S0.lrem[n] <= 0 \/ K(n) = "Sleep")
 TimeoutEnabled(S0, n) == S0.ten[n] /\ S0.trem[n] <= 0
 Urgent(S0) == \E n \in Nodes : (CanFire(S0, n) /\ S0.lrem[n] < 0) \/ (S0.ten[n] /\ S0.trem[n] < 0)
 
